@@ -20,7 +20,7 @@ prop('C01', ['K1', 'M1', 'M2', 'M3', 'M7', 'T4', 'DC1', 'DC4', 'M8', 'U1', 'CL1'
      ['identity of leaf objects at every position', 'equality of the re-flattened treespec',
       'any n replacement leaves round-trip'])
 
-prop('C02', ['K5', 'K6', 'NS1', 'K2', 'D2', 'T2', 'M7', 'K4', 'T1', 'T1e', 'T3', 'T3b', 'L6', 'G9'],
+prop('C02', ['K5', 'K6', 'NS1', 'K2', 'D2', 'T2', 'M7', 'K4', 'T1', 'T1e', 'T3', 'T3b', 'L6', 'G9', 'T10'],
      'Leaf order and classification, structural part: the user predicate is consulted before the '
      'registry and a true answer never reaches it (K5, on the CFG of all 5 classification sites); '
      'lookup order namespace map -> global map -> struct sequence -> namedtuple with the exact '
@@ -197,7 +197,7 @@ prop('C17', ['L1', 'L2', 'L3', 'L4', 'L5', 'T3', 'T3b', 'G3', 'L6'],
      'queue on a lock that releases the GIL instead of on the engine mutex (G3).',
      ['linearizability over schedules'])
 
-prop('C18', ['T1', 'T1e', 'T2', 'T3', 'T3b', 'T4', 'T5', 'T6', 'T7', 'T8', 'K7py', 'T9', 'K6py'],
+prop('C18', ['T1', 'T1e', 'T2', 'T3', 'T3b', 'T4', 'T5', 'T6', 'T7', 'T8', 'K7py', 'T9', 'K6py', 'T10'],
      'Twins: both recognisers test the same atoms (T1); the key sort twin has the same stages and '
      'last resort (T2); cached answers and address-keyed memos are evicted with the class (T3, '
      'T3b); one-level handlers (T4), '
